@@ -110,6 +110,9 @@ def run(ctx, rep):
                 if isinstance(x, ast.Subscript):
                     risky.append(utext(x))
                 elif isinstance(x, ast.Call) and not (isinstance(x.func, ast.Attribute) and utext(x.func.value) == "logger"):
+                    if isinstance(x.func, ast.Name) and x.func.id == "getattr" and len(x.args) == 3 and \
+                            isinstance(x.args[1], ast.Constant) and all(isinstance(a, (ast.Name, ast.Constant)) for a in x.args):
+                        continue   # getattr with a default cannot raise AttributeError
                     risky.append(utext(x))
                 elif isinstance(x, (ast.BinOp, ast.JoinedStr)) :
                     risky.append(utext(x))
